@@ -32,7 +32,7 @@ MIRRORED = ('defaultPoll.handler', 'defaultPoll.Wait', 'defaultPoll.Trigger', 'd
             'iovecs', 'resetIovecs', 'FDOperator.Control', 'FDOperator.do', 'FDOperator.done', 'openDefaultPoll')
 
 def fingerprint_changes():
-    exp_path = os.path.join(common.VERIF, 'lib/expected_fp_c11.json')
+    exp_path = os.path.join(common.VERIF, 'lib/expected_fp.json')
     if not os.path.exists(exp_path) or not os.path.exists(os.path.join(common.WORK, 'facts.json')):
         return []
     import json
@@ -57,12 +57,30 @@ def budgets(tier, escalate):
 
 def run(rep):
     wd = os.path.join(common.WORK, PROP); shutil.rmtree(wd, ignore_errors=True); os.makedirs(wd)
-    ok, detail = common.proof_stage(rep, MODULES, ['npdriver'])
-    proof_broken = None if ok else detail
+    # the Go side (harness build + all harness runs) needs nothing from Lean: run it while the proof stage
+    # (T-gen, lake build, axiom audit) is under way; the model replay and the oracle come after both
+    import threading
+    stage = {}
+    def proofs():
+        try:
+            stage['res'] = common.proof_stage(rep, MODULES, ['npdriver'])
+        except Exception as e:
+            stage['res'] = (False, 'proof stage failed: %r' % (e,))
+    th = threading.Thread(target=proofs); th.start()
     binary, out = common.build_harness('pollh')
     if binary is None:
+        th.join()
         rep.violation('harness does not build against /repo (does the tree compile?):\n' + out[-2000:], ['# go build failed'], no_input=True)
         return
+    b0 = budgets(rep.tier, False)
+    expected_cells = int(subprocess.run([binary, '-mode', 'count'], stdout=subprocess.PIPE, text=True, timeout=60).stdout.strip() or 0)
+    jobs = [('enum%d' % i, ['-mode', 'enum', '-shard', str(i), '-nshards', '16']) for i in range(16)]
+    jobs += [('rand%d' % i, ['-mode', 'rand', '-seed', str(rep.seed * 1000 + i), '-n', str(b0['rbatches']), '-tier', rep.tier]) for i in range(b0['rshards'])]
+    jobs += [('real%d' % i, ['-mode', 'real', '-seed', str(rep.seed * 1000 + 500 + i), '-n', str(b0['xrounds']), '-tier', rep.tier]) for i in range(b0['xshards'])]
+    pool, futs = pollrun.start_harnesses(binary, wd, jobs)
+    th.join()
+    ok, detail = stage['res']
+    proof_broken = None if ok else detail
     if not os.path.exists(common.DRIVER):
         rep.violation('npdriver does not build:\n' + (proof_broken or ''), ['# lake build npdriver failed'], no_input=True)
         return
@@ -70,30 +88,31 @@ def run(rep):
     escalate = bool(changed) or proof_broken is not None
     if changed:
         rep.notes.append('mirrored functions whose source changed since the model was written (search budget escalated): ' + ', '.join(changed))
-    b = budgets(rep.tier, escalate)
     problems = []
-    # corpus first
+    results = []
+    names = []
+    # corpus
     corpus_lines = []
     for f in sorted(glob.glob(os.path.join(common.VERIF, 'corpus', PROP, '*.ops'))):
         corpus_lines += [l for l in open(f).read().split('\n') if l and not l.startswith('#')]
-    results = []
     if corpus_lines:
-        r = pollrun.replay_lines(binary, corpus_lines, os.path.join(wd, 'corpus'))
-        results.append(r)
-    expected_cells = int(subprocess.run([binary, '-mode', 'count'], stdout=subprocess.PIPE, text=True, timeout=60).stdout.strip() or 0)
-    jobs = [('enum%d' % i, ['-mode', 'enum', '-shard', str(i), '-nshards', '16']) for i in range(16)]
-    jobs += [('rand%d' % i, ['-mode', 'rand', '-seed', str(rep.seed * 1000 + i), '-n', str(b['rbatches']), '-tier', rep.tier]) for i in range(b['rshards'])]
-    jobs += [('real%d' % i, ['-mode', 'real', '-seed', str(rep.seed * 1000 + 500 + i), '-n', str(b['xrounds']), '-tier', rep.tier]) for i in range(b['xshards'])]
-    rs = pollrun.run_many(binary, wd, jobs)
-    results += rs
+        results.append(pollrun.replay_lines(binary, corpus_lines, os.path.join(wd, 'corpus'))); names.append('corpus')
+    rs = pollrun.finish(wd, jobs, futs); pool.shutdown()
+    results += rs; names += [n for n, _ in jobs]
+    if escalate:
+        # widened search: more random batches and real-epoll rounds, other seeds
+        b = budgets(rep.tier, True)
+        xjobs = [('xrand%d' % i, ['-mode', 'rand', '-seed', str(rep.seed * 1000 + 100 + i), '-n', str(b['rbatches']), '-tier', rep.tier]) for i in range(b['rshards'])]
+        xjobs += [('xreal%d' % i, ['-mode', 'real', '-seed', str(rep.seed * 1000 + 700 + i), '-n', str(b['xrounds']), '-tier', rep.tier]) for i in range(b['xshards'])]
+        results += pollrun.run_many(binary, wd, xjobs); names += [n for n, _ in xjobs]
     cov = collections.Counter(); sizes = collections.Counter(); cells = set(); traces = set(); cases = events = 0
     enum_cases = rand_cases = real_cases = 0
-    for (name, _), r in zip([('corpus', None)] * (1 if corpus_lines else 0) + jobs, results):
+    for name, r in zip(names, results):
         for p in r['problems']: problems.append(p + (name,))
         cov += r['cov']; sizes += r['sizes']; cases += r['cases']; events += r['events']; traces |= r['traces']
         if name.startswith('enum'): cells |= r['cells']; enum_cases += r['cases']
-        elif name.startswith('rand'): rand_cases += r['cases']
-        elif name.startswith('real'): real_cases += r['cases']
+        elif 'rand' in name: rand_cases += r['cases']
+        elif 'real' in name: real_cases += r['cases']
     exhaustive = (len(cells) == expected_cells and enum_cases == expected_cells)
     if not exhaustive and not problems:
         problems.append(('', 'enumeration-incomplete', 'finite part: %d of %d cells executed' % (len(cells), expected_cells), 'enum'))
